@@ -6,6 +6,7 @@ import (
 	"fmt"
 	"math/rand/v2"
 	"strings"
+	"sync/atomic"
 	"testing"
 
 	"github.com/jub0bs/cors"
@@ -87,7 +88,10 @@ func buildUniverse(t *testing.T, hostsSel func(h string) bool, schemes []string,
 					sp := PatSpec{Scheme: sch, Subs: subs, Host: h.host, IP6: h.ip6, Port: pt}
 					up, err := newUPat(sp)
 					if err != nil {
-						t.Fatalf("C01 universe: pattern %q (valid by construction) rejected by ParsePattern: %v -- this is C13's business; fix the universe or the code", sp.String(), err)
+						// valid by construction; that it is rejected is C13's business. C01 goes on with the rest of the
+						// universe (lesson of seeded change C01-l, where the same slip also broke the request side)
+						c01UniverseRejected.Add(1)
+						continue
 					}
 					u = append(u, up)
 				}
@@ -209,6 +213,8 @@ func lastLabelStartsWithDigit(h string) bool {
 	last := h[strings.LastIndexByte(h, '.')+1:]
 	return last != "" && last[0] >= '0' && last[0] <= '9'
 }
+
+var c01UniverseRejected atomic.Int64
 
 type c01Case struct {
 	Patterns []string `json:"patterns"`
@@ -353,6 +359,10 @@ func TestVerif_C01(t *testing.T) {
 		nProbes += len(p.probes)
 	}
 	r.Set("universe_patterns", len(U))
+	r.Set("universe_patterns_rejected_by_ParsePattern", c01UniverseRejected.Load())
+	if len(U) < 300 {
+		t.Fatalf("C01 universe: only %d of the patterns that are valid by construction were accepted by ParsePattern", len(U))
+	}
 	r.Set("universe_probes", nProbes)
 
 	var rc c01Case
